@@ -541,3 +541,34 @@ Proof.
   unfold step. cbn [sg pc lcode lnext fcode].
   destruct p as [ | | | [|] | | [|? b] | | ]; try discriminate; cbn; eexists; split; try reflexivity; cbn; auto.
 Qed.
+
+(* ---------------------------------------------------------------- submission from an I/O or timer callback *)
+(* callbacks run while the loop thread is between the return of poll and the swap (LHandle): a functor
+   queued there is taken by THIS iteration's drain: from event handling up to the swap, every step of
+   any thread keeps every queued task queued or moves it into the running batch, and the loop thread
+   goes LHandle -> LSwap -> LRun without passing through poll *)
+Definition in_handling (p : lpc) : bool := match p with LHandle _ | LSwap => true | _ => false end.
+
+Lemma callback_queue_step : forall sh scr s t rest wk, pc s = LHandle wk -> lcode s = MQueue t :: rest ->
+  exists s', step sh scr s TLoop = Some s' /\ pc s' = LHandle wk /\
+             pending (sg s') = pending (sg s) ++ [t] /\ lcode s' = MWakeTest :: rest.
+Proof.
+  intros sh scr [g p lc ln fc] t rest wk P LC. cbn in P, LC. subst p lc. unfold step. cbn [sg pc lcode lnext fcode].
+  destruct wk; eexists; (split; [reflexivity|]); cbn; auto.
+Qed.
+
+Lemma handling_step : forall sh scr s lab s', in_handling (pc s) = true -> step sh scr s lab = Some s' ->
+  (in_handling (pc s') = true \/ exists b, pc s' = LRun b) /\
+  (forall t, In t (pending (sg s)) -> In t (pending (sg s')) \/ In t (batch (pc s'))).
+Proof.
+  intros sh scr s lab s' IH H.
+  destruct (step_cases _ _ _ _ _ H) as [(i & m & rest & g' & c' & -> & N & E & ->) |
+                                        [(m & rest & g' & c' & -> & CC & LC & E & ->) | C]].
+  - cbn [sg pc]. split; [left; exact IH|]. intros t I. left.
+    destruct (exec_mop_cases _ _ _ _ _ _ _ _ _ E) as [[(t0 & -> & P & _) | (P & _)] _]; rewrite P; [apply in_or_app; left|]; exact I.
+  - cbn [sg pc]. split; [left; exact IH|]. intros t I. left.
+    destruct (exec_mop_cases _ _ _ _ _ _ _ _ _ E) as [[(t0 & -> & P & _) | (P & _)] _]; rewrite P; [apply in_or_app; left|]; exact I.
+  - inversion C; subst; cbn [sg pc set_flags pending batch in_handling];
+      match goal with H : pc s = _ |- _ => rewrite H in IH end; try discriminate;
+      (split; [try (left; reflexivity); try (right; eauto)|intros t I; auto]).
+Qed.
